@@ -373,3 +373,74 @@ theorem decompressPGLZ_render (ts : List Tok) (h : PglzWF ts) (h4 : 4 ≤ (rende
   rfl
 
 end PgVerif.Proofs.Pglz
+
+namespace PgVerif.Proofs.Pglz
+open PgVerif PgVerif.Model.Pglz PgVerif.Spec.Pglz
+
+/-! ### a stream shorter than 4 bytes is never smaller than what it stands for -/
+
+theorem renderTok_length_pos (t : Tok) : 1 ≤ (renderTok t).length := by
+  cases t with
+  | lit b => simp [renderTok]
+  | mat off len => simp only [renderTok]; split <;> simp
+
+theorem flatMap_renderTok_ge (g : List Tok) : g.length ≤ (g.flatMap renderTok).length := by
+  induction g with
+  | nil => simp
+  | cons t ts ih =>
+    have := renderTok_length_pos t
+    simp only [List.flatMap_cons, List.length_append, List.length_cons]; omega
+
+theorem render_groups_ge (gs : List (List Tok)) : gs.flatten.length + gs.length ≤ (gs.flatMap renderGroup).length := by
+  induction gs with
+  | nil => simp
+  | cons g gs ih =>
+    have := flatMap_renderTok_ge g
+    simp only [List.flatten_cons, List.flatMap_cons, List.length_append, List.length_cons, renderGroup]; omega
+
+theorem renderPglz_ge (ts : List Tok) (hne : ts ≠ []) : ts.length + 1 ≤ (renderPglz ts).length := by
+  have h := render_groups_ge (group8 ts)
+  rw [group8_flatten] at h
+  have : 1 ≤ (group8 ts).length := by
+    cases hg : group8 ts with
+    | nil => have := group8_flatten ts; rw [hg] at this; simp at this; exact absurd this hne
+    | cons _ _ => simp
+  unfold renderPglz; omega
+
+/-- the compressed form of a value is only kept when it is smaller (`4 + |stream| < |original|`); such a stream has at
+least 4 bytes — a shorter one is a control byte and at most two literals -/
+theorem pglz_stream_ge4 (ts : List Tok) (h : PglzWF ts) (hc : 4 + (renderPglz ts).length < (expand ts).length) :
+    4 ≤ (renderPglz ts).length := by
+  obtain ⟨hwf, hoffs⟩ := h
+  have hlen : (expand ts).length = producesAll ts := by simp [expand, expandFrom_length]
+  rw [hlen] at hc
+  match ts, hwf, hoffs, hc with
+  | [], _, _, hc => simp [producesAll] at hc
+  | [t], hwf, hoffs, hc =>
+    cases t with
+    | lit b => simp [producesAll, Tok.produces] at hc
+    | mat off len =>
+      have := hwf (.mat off len) (by simp)
+      obtain ⟨h1, _⟩ := this
+      simp only [OffsOK, Tok.offOK] at hoffs
+      omega
+  | [t1, t2], hwf, hoffs, hc =>
+    cases t1 with
+    | mat off len =>
+      have := hwf (.mat off len) (by simp)
+      obtain ⟨h1, _⟩ := this
+      simp only [OffsOK, Tok.offOK] at hoffs
+      omega
+    | lit b =>
+      cases t2 with
+      | lit b2 => simp [producesAll, Tok.produces] at hc; omega
+      | mat off len =>
+        have : (renderPglz [.lit b, .mat off len]).length = 1 + 1 + (renderTok (.mat off len)).length := by
+          simp [renderPglz, group8, renderGroup, renderTok]; omega
+        have h2 : 2 ≤ (renderTok (.mat off len)).length := by simp only [renderTok]; split <;> simp
+        omega
+  | t1 :: t2 :: t3 :: rest, _, _, _ =>
+    have := renderPglz_ge (t1 :: t2 :: t3 :: rest) (by simp)
+    simp only [List.length_cons] at this; omega
+
+end PgVerif.Proofs.Pglz
